@@ -192,4 +192,19 @@ theorem all_slice {α : Type} {p : α → Bool} {l : List α} (h : l.all p = tru
   intro x hx
   exact h x (List.mem_of_mem_drop (List.mem_of_mem_take hx))
 
+theorem nonAscii_b2u_of_all {l : List UInt8} (h : l.all asciiB = true) : ∀ x ∈ l, nonAsciiU (b2u x) = false := by
+  intro x hx
+  simp [nonAsciiU, (List.all_eq_true.mp h) x hx]
+
+theorem all_takeWhile {α : Type} (p : α → Bool) : ∀ l : List α, (l.takeWhile p).all p = true
+  | [] => rfl
+  | a :: as => by
+    by_cases h : p a = true
+    · simp [List.takeWhile_cons, h, all_takeWhile p as]
+    · simp [List.takeWhile_cons, h]
+
+/-- the builder state the pre-58560e3 WriteSubstring produced for LikelyUnicode; WriteSubstring("abéc", 0, 2) -/
+def sbOldExample : SB :=
+  { abuf := [], started := true, ubuf := slice [0x61, 0x62, 0xe9, 0x63] 0 2, unicode := true }
+
 end GojaModel.C06
